@@ -179,8 +179,8 @@ NOTE_CLI = ('Trusted: Coq kernel; extraction + ocamlopt; glue. Modelled, not ver
 _t('C10', 'Theorem C10_cli (end to end over the pipeline model): whenever cli prints, there are a duplicate-free column list (one header name per free variable) and a row list such that every total assignment matches exactly one row, whose result is the value of the printed diagram; the printed rows are exactly those the filter keeps and the -v lines exactly the true rows; C10_bench: any repetition count >= 1 yields the single evaluation. Underlying theorems: for an ordered diagram whose support lies in the duplicate-free column list, the printer model returns rows such that every assignment matches exactly one row and that row carries beval (C10_partition; '
           'no lookup failure, i.e. no panic); the filtered table is the filter of the full table (C10_filter), the -v lines are the true rows (C10_vars). The pipeline that produces header, columns and the printed diagram (tokens -> vars -> free_vars -> eval -> retain -> model) is the Gallina function cli. '
           'Correspondence: the real binary against cli on the option grid (15 filter spellings, 3 channels, -c, -m, -b), all small orderings, random formulas/options/ordering files: header, row set, -v set.', NOTE_CLI)
-_t('C11', 'Theorem C11_meaning: evaluating a formula renamed by any id map with a left inverse yields a diagram that denotes the same function of the renamed variables (so a different ordering changes shape, not meaning). '
-          'The id assignment under an ordering (preload, continue after the largest id) and the ordering-file reader are part of the Gallina pipeline cli. Partial: that two orderings induce renamings of one another is shown by correspondence, not proved at lexer level. '
+_t('C11', 'Theorem C11_text (over texts, no bound): the same formula text evaluated under ANY two orderings with pairwise distinct ids (permutations, subsets, supersets with unused names anywhere) yields diagrams that denote the same function of the NAMED variables. Proved through: tokens are a function of the final id table (classify_render), two runs differ by an id renaming that respects names (render_rename), the grammar is closed under id renaming and the parser is the grammar (C08), C11_meaning (renaming by any map with a left inverse renames the denotation). C11_file_orderings: the orderings the binary reads from a file have distinct ids. '
+          'Partial: that listed variables are ORDERED as in the file, and the -r/-o round trip, are shown by correspondence only (header order and round trip on the real binary). '
           'Correspondence: 12 formulas x all 65 orderings over {a,b,c,u} incl. supersets with unused names in every position, duplicate/punctuation/keyword files, random ordering files; header order, row set by name, -r list, and the -r/-o round trip on the real binary.', NOTE_CLI)
 _t('C12', 'Theorem C12_no_panic: for EVERY fuel, code-point classification, option set (-f, -c, -m, -b), ordering-file text and formula text, the pipeline model cli (ordering file, tokenize, parse, vars, free_vars, eval, retain, model, both table printers) never returns CliPanic, i.e. no column lookup in either printer fails on the diagram that is printed (answer, retained answer, or a model of either). Proved from: every variable of a parsed tree is an identifier token and parser output has no embedded diagram (parse_vars, by induction over the grammar); the support of the answer consists of proper free occurrences (support_fv); retain and model keep shape and shrink the support; vars is duplicate-free (pf_vars_spec); the partition theorem. Also C12_table and C12_eval (fixed-point-free formulas always evaluate). '
           'The tokenizer/parser/evaluator model returns Error (never a panic value) on every input, and the correspondence shows the implementation returns Err exactly there. Partial by nature: stack exhaustion, allocation failure, clap and I/O are run-time behaviour. '
